@@ -23,17 +23,6 @@ Inductive lcol :=
 | LSingle (name : option str) (target : N) (tname : option str)   (* name = last component of the lineage column's Ident *)
 | LAll (input : N) (except : list str).
 
-Definition lookup_cid_m (m : list (N * target)) (id : N) (name : option str) : option cid :=
-  match lookup_node m id with
-  | Some (MCompute c) => Some c
-  | Some (MInput cols) =>
-      match name with
-      | Some v => option_map snd (find (fun rc => relcol_eqb (fst rc) (RSingle (Some v))) cols)
-      | None => None
-      end
-  | None => None
-  end.
-
 Definition all_cols (cols : list (relcol * cid)) (except : list str) : list (relcol * cid) :=
   filter (fun rc => match fst rc with
                     | RSingle (Some n) => negb (existsb (leqb n) except)
@@ -89,7 +78,7 @@ Fixpoint run_obs_l (strict : bool) (s : lstate) (l : list (lop * list obs)) (k :
       match elaborate s lo with
       | Some o =>
           match (if strict then vstep s o else step s o) with
-          | Some s' => if forallb (check_obs s' o) bs then run_obs_l strict s' l' (S k) else inr k
+          | Some s' => if forallb (check_obs s s' o) bs then run_obs_l strict s' l' (S k) else inr k
           | None => inr k
           end
       | None => inr k
@@ -118,4 +107,32 @@ Definition replay_prefix_verdict (l : list (lop * list obs)) (pending : option l
              | None => 0
              end
   | inr k => N.of_nat k + 1
+  end.
+
+(* where an out-of-scope id enters: the first read of lookup_cid (operation number, node, name) whose result is not in the
+   visible set of the pipeline under construction at the moment of the read *)
+Definition read_scope (s s' : lstate) (b : obs) : option (N * option str) :=
+  match b with
+  | BLookup post node name (Some c) =>
+      if memN c (fvis (frames (if post then s' else s))) then None else Some (node, name)
+  | _ => None
+  end.
+
+Fixpoint first_some {A B} (f : A -> option B) (l : list A) : option B :=
+  match l with [] => None | x :: l' => match f x with Some y => Some y | None => first_some f l' end end.
+
+Fixpoint first_out_of_scope_read (s : lstate) (l : list (lop * list obs)) (k : N) : option (N * (N * option str)) :=
+  match l with
+  | [] => None
+  | (lo, bs) :: l' =>
+      match elaborate s lo with
+      | Some o => match step s o with
+                  | Some s' => match first_some (read_scope s s') bs with
+                               | Some r => Some (k, r)
+                               | None => first_out_of_scope_read s' l' (k + 1)
+                               end
+                  | None => None
+                  end
+      | None => None
+      end
   end.
